@@ -9,7 +9,7 @@ S2C : streams generated from OpSeq.tla behaviours through the public API are val
 """
 import json
 
-from .. import corpus, faststorage, stream_events, streams, tlc, vela_run, weightbuf
+from .. import corpus, faststorage, schedule, stream_events, streams, tlc, vela_run, weightbuf
 from ..common import Run, MachineryError, seed
 
 CONFIG_ARENA = {"Dedicated_Sram": 393216, "Dedicated_Sram_512KB": 524288}
@@ -20,6 +20,38 @@ def spill_info(opts):
     spilling = mm.startswith("Dedicated_Sram")
     cache = opts.get("arena") or CONFIG_ARENA.get(mm, 393216)
     return spilling, cache
+
+
+def schedule_component(run, tier, sd):
+    """growth beyond the listed property (DESIGN.md section 8): Schedule.tla - the scheduler's search for a schedule of an
+    NPU subgraph (cascade building over the minimal schedule, choice of the Max schedule, per-cascade striping proposals
+    accepted while the estimate stays within the SRAM limit) model-checked with its two negative controls, and every
+    schedule / cascade-builder call / sub-schedule optimisation of real compilations validated against the same
+    predicates (ScheduleTrace.tla).  None of its predicates is the listed property: a finding is reported as data
+    (LATENT line, evidence), the verdict of C02 comes from the footprints of the emitted stream below."""
+    for name, res in schedule.mc(tier):
+        run.add_mc(name, res)
+    sjobs = schedule.jobs(sd, 40 if tier == "quick" else 600)
+    schedule.install()
+    try:
+        srs = vela_run.compile_many(sjobs, extractor=schedule.extractor)
+    finally:
+        schedule.uninstall()
+    bad = [x.get("extract_error") for x in srs if x.get("extract_error")]
+    if bad:
+        raise MachineryError("schedule extractor failed: %s" % bad[0])
+    recs = [x.get("extract") for x in srs]
+    res, findings = schedule.validate(recs)
+    events, _, _ = schedule.events_of(recs)
+    controls = schedule.negative_controls(events)
+    run.add_trace_run("ScheduleTrace", res, res["counters"].get("schedules", 0))
+    run.cov["schedule"] = {"counters": res["counters"], "negative_controls": controls,
+                           "latent": sum(1 for f in findings if f["kind"] == "latent"),
+                           "drift": sum(1 for f in findings if f["kind"] == "drift"),
+                           "first": [{"kind": f["kind"], "pred": f["pred"], "family": sjobs[f["record"]]["family"], "sg": f["sg"],
+                                      "what": str(f["what"])[:200]} for f in findings[:10]]}
+    for f in findings[:20]:
+        print("LATENT: Schedule %s %s in %s: %s" % (f["kind"], f["pred"], sjobs[f["record"]]["family"], str(f["what"])[:200]))
 
 
 def main(tier):
@@ -51,6 +83,7 @@ def main(tier):
         rs = vela_run.compile_many(jobs, extractor=both)
     finally:
         faststorage.uninstall()
+    schedule_component(run, tier, sd)
     wb_events, wb_index = [], {}
     for j, x in zip(jobs, rs):
         for rec in ((x.get("extract") or {}).get("wb") or []):
